@@ -19,7 +19,7 @@ O nodes   ('ins', W, [I], [O], conf)    insert T {ns := I.., kids := O..} [unles
                                                                                    -> I(pW.. mI.. mO.. [pN()|pU(mI..)])
           ('upd', W, f, [I], [O])       update T filter f set {...}                -> U(pW.. fF mI.. mO..)
           ('del', W, f, o, off, lim)    delete T filter/order by/offset/limit      -> D(pW.. fF oO pOff pLim)
-          ('selO', W, [I], [O], f, o, off, lim)  select T {c := I, l := O} ...     -> N(pW.. sI.. sO.. fF oO pOff pLim)
+          ('selO', W, [I], [O], f, o, off, lim)  select T {c := I, l := O} ...     -> N(pL1 pW.. sI.. sO.. fF oO pOff pLim)
           ('free', [I], [O])            {a := I, b := O}   (exposed position only) -> N(rI.. rO..)
           ('callO', fid, [I])           f<fid>(I)   (function of sort O)           -> C<fid>(pI...)
           ('forO', Ii, Ob)              for v in Ii union (Ob)                     -> N(pIi pOb)
@@ -108,7 +108,7 @@ def _mut_shape(Is, Os, env, key=None):
     if Is:
         el.append('ns := ' + _setof(Is, env))
     if Os:
-        el.append('kids := ' + _setof(Os, env))
+        el.append('kids := (distinct ' + _setof(Os, env) + ')')
     if not el:
         el.append('k := 0')
     return '{ ' + ', '.join(el) + ' }'
@@ -126,7 +126,8 @@ def render(n, env, toplevel=False):
     if k == 'grp':
         return f'count((group ({render(n[1], env)}) by .k))'
     if k == 'op':
-        return f'(({render(n[1], env)}) + ({render(n[2], env)}))'
+        # operands are made singletons ("can not take cross product of volatile operation" otherwise)
+        return f'(sum(({render(n[1], env)})) + sum(({render(n[2], env)})))'
     if k == 'coal':
         return f'(({render(n[1], env)}) ?? ({render(n[2], env)}))'
     if k == 'if':
@@ -181,12 +182,12 @@ def render(n, env, toplevel=False):
         w = _withs(W, env)
         t = env.fresh_type()
         el = [f'c{i} := ({render(x, env)})' for i, x in enumerate(Is)]
-        el += [f'l{i} := ({render(x, env)})' for i, x in enumerate(Os)]
+        el += [f'l{i} := (distinct ({render(x, env)}))' for i, x in enumerate(Os)]
         shape = (' { ' + ', '.join(el) + ' }') if el else ''
         return f'{w}select {t}{shape}' + _clauses(f, o, off, lim, env)
     if k == 'free':
         el = [f'a{i} := ({render(x, env)})' for i, x in enumerate(n[1])]
-        el += [f'b{i} := ({render(x, env)})' for i, x in enumerate(n[2])]
+        el += [f'b{i} := (distinct ({render(x, env)}))' for i, x in enumerate(n[2])]
         return '{ ' + ', '.join(el) + ' }'
     if k == 'forO':
         it = render(n[1], env)
@@ -253,7 +254,7 @@ def erase(n):
         tail = [('p', conf[1])] if (conf is not None and conf != 'uc') else []
         return 'I' + _kids([('p', w) for w in W] + [('m', x) for x in Is] + [('m', x) for x in Os] + tail)
     if k == 'sel_same':
-        return 'N()'
+        return 'N(pL1)'
     if k == 'upd_same':
         return 'U' + _kids([('m', x) for x in n[1]])
     if k == 'upd':
@@ -264,7 +265,8 @@ def erase(n):
         return 'D' + _kids([('p', w) for w in W] + [('f', f), ('o', o), ('p', off), ('p', lim)])
     if k == 'selO':
         _, W, Is, Os, f, o, off, lim = n
-        return 'N' + _kids([('p', w) for w in W] + [('s', x) for x in Is] + [('s', x) for x in Os] +
+        # reading the type's table is Stable: an explicit stable leaf stands for the subject
+        return 'N' + _kids([('p', ('L', 1))] + [('p', w) for w in W] + [('s', x) for x in Is] + [('s', x) for x in Os] +
                            [('f', f), ('o', o), ('p', off), ('p', lim)])
     if k == 'free':
         return 'N' + _kids([('r', x) for x in n[1]] + [('r', x) for x in n[2]])
